@@ -216,3 +216,72 @@ def extra_input_contract(v: Verdict, tier: str):
                         lambda r, c: {"extra": "input-contract", "kind": r["kind"], "dclass": r["dclass"], "out": r["out"]},
                         what_fn=lambda r, c: f"input contract {r['kind']} {r['meta']}")
     v.cov["extra_input_contract_records"] = n
+
+
+# --------------------------------------------------------------------------------------
+# LabelGroup / SegmentationClassGroups construction rules (Groups.tla), attached to C12
+# --------------------------------------------------------------------------------------
+def groups_record(rng):
+    import numpy as np
+    from panoptica.utils import LabelGroup, LabelMergeGroup, SegmentationClassGroups
+    arr = np.array([rng.choice([0, 0, 1, 2, 3, 4, 5, 9]) for _ in range(8)], dtype=np.uint8)
+    if rng.random() < 0.5:
+        labels = [rng.choice([-1, 0, 1, 2, 2, 3, 5]) for _ in range(rng.randint(0, 3))]
+        single, merge = rng.random() < 0.4, rng.random() < 0.4
+        rec = {"kind": "group", "labels": labels, "single": single, "merge": merge, "out": "ok", "rlabels": [], "arr": arr.tolist(), "ext": [],
+               "entries": [], "keys": [], "glabels": [], "gsingle": [], "defined": True}
+        try:
+            g = (LabelMergeGroup if merge else LabelGroup)(list(labels), single_instance=single)
+            rec["rlabels"] = [int(x) for x in g.value_labels]
+            rec["ext"] = [int(x) for x in g(arr)]
+        except Exception as e:  # noqa: BLE001
+            rec["out"] = "raise"
+            rec["meta"] = {"exception": f"{type(e).__name__}"}
+        return rec
+    n = rng.randint(1, 4)
+    names = [rng.choice(["a", "A", "b", "Bone", "bone", "x y", "L-1"]) for _ in range(n)]
+    entries, arg = [], {}
+    for nm in names:
+        labs = sorted(set(rng.choice([1, 2, 3, 4, 5]) for _ in range(rng.randint(1, 2))))
+        single = len(labs) == 1 and rng.random() < 0.3
+        merge = rng.random() < 0.3
+        form = rng.random()
+        if form < 0.5 or merge:
+            arg[nm] = (LabelMergeGroup if merge else LabelGroup)(labs, single_instance=single)
+        else:
+            arg[nm] = (labs, single)        # the tuple form
+        entries.append({"name": nm.lower(), "labels": labs, "single": single, "merge": merge and form < 2})
+    # a dict keeps the LAST value of a repeated key, at the FIRST key's position: mirror what was passed
+    passed = []
+    for nm, val in arg.items():
+        e = next(x for x in reversed(entries) if x["name"] == nm.lower() and True)
+        passed.append((nm, val))
+    entries = []
+    for nm, val in arg.items():
+        if isinstance(val, tuple):
+            entries.append({"name": nm.lower(), "labels": list(val[0]), "single": bool(val[1]), "merge": False})
+        else:
+            entries.append({"name": nm.lower(), "labels": [int(x) for x in val.value_labels], "single": bool(val.single_instance), "merge": isinstance(val, LabelMergeGroup)})
+    rec = {"kind": "groups", "labels": [], "single": False, "merge": False, "out": "ok", "rlabels": [], "arr": arr.tolist(), "ext": [],
+           "entries": entries, "keys": [], "glabels": [], "gsingle": [], "defined": True}
+    try:
+        gs = SegmentationClassGroups(arg)
+        rec["keys"] = list(gs.keys())
+        rec["glabels"] = [[int(x) for x in gs[k].value_labels] for k in gs.keys()]
+        rec["gsingle"] = [bool(gs[k].single_instance) for k in gs.keys()]
+        rec["defined"] = bool(gs.has_defined_labels_for(arr))
+    except Exception as e:  # noqa: BLE001
+        rec["out"] = "raise"
+        rec["meta"] = {"exception": f"{type(e).__name__}: {e}"[:120]}
+    return rec
+
+
+def extra_groups(v: Verdict, tier: str):
+    rng = random.Random(seed() * 7919 + 606)
+    with quiet():
+        recs = [groups_record(rng) for _ in range(300 if tier == "quick" else 5000)]
+    for r in recs:
+        r.setdefault("meta", {})
+    n = validate_traces(v, "Trace_Groups", ["T_GroupValidity", "T_GroupLabels", "T_GroupExtract", "T_GroupsKeys", "T_GroupsContent", "T_GroupsDefined"],
+                        recs, lambda r, c: {"extra": "class-group construction", "kind": r["kind"]}, what_fn=lambda r, c: f"class groups {r['kind']} {r.get('entries') or r.get('labels')}")
+    v.cov["extra_group_construction_records"] = n
